@@ -10,7 +10,7 @@ theorem InSet.mono {v : Val} {T T' : TySet} (h : InSet v T) (hs : ∀ t, t ∈ T
   exact ⟨t, hs t ht, hv⟩
 
 theorem subset_iff {a b : TySet} : TySet.subset a b = true ↔ ∀ t, t ∈ a → t ∈ b := by
-  simp [TySet.subset, List.all_eq_true, List.contains_iff_mem]
+  simp [TySet.subset, List.all_eq_true]
 
 theorem TMap.get_cons (k : String) (v : TySet) (m : TMap) (x : String) :
     TMap.get ((k, v) :: m) x = if k = x then some v else TMap.get m x := rfl
@@ -670,7 +670,7 @@ theorem args_sound (hT : Truthful R sem env) {as : List Expr} {σ σ' : State} (
       simp only [hn]
       have hin : InSet v T := hT.arg a n T v hn hty hv
       have hloc : n ∉ S → env.isFree n = false := fun hx =>
-        hsc.local (by simp [List.filterMap_cons, hn]) hx
+        hsc.local (by simp [hn]) hx
       exact ih _ (hS.set hin hloc) hu' hsc'
   | skip hn _ ih =>
     rename_i a as σ σ' hrest
@@ -731,6 +731,122 @@ theorem step_sound (hT : Truthful R sem env) (hW : ∀ x, x ∈ W → x ∈ S) {
     rcases hx with hx | hx
     · exact hu x (by rw [plain_untracked hp]; exact hx)
     · exact hW x hx
+
+end
+
+/-! ### the annotations the model emits are `tyE` facts -/
+
+section
+variable {R : Resolver} {env : FnEnv} {tin : TMap}
+
+/-- An annotation entry is justified: it is the set `tyE` computes for an expression with that id. -/
+def Justified (R : Resolver) (env : FnEnv) (tin : TMap) (p : Nat × TySet) : Prop :=
+  ∃ e : Expr, e.id = p.1 ∧ tyE R env tin e = some p.2
+
+theorem selfAnn_justified (e : Expr) (p : Nat × TySet) (h : p ∈ selfAnn R env tin e) : Justified R env tin p := by
+  simp only [selfAnn] at h
+  cases ht : tyE R env tin e with
+  | none => simp [ht] at h
+  | some T =>
+    simp only [ht, List.mem_singleton] at h
+    subst h
+    exact ⟨e, rfl, ht⟩
+
+mutual
+theorem annE_justified : ∀ (e : Expr) (p : Nat × TySet), p ∈ annE R env tin e → Justified R env tin p
+  | .const i k r, p, h => selfAnn_justified _ p (by simpa [annE] using h)
+  | .name i x c, p, h => selfAnn_justified _ p (by simpa [annE] using h)
+  | .seq i k es c, p, h => by
+      cases k <;> cases c <;> simp only [annE, List.mem_append, List.not_mem_nil] at h
+      all_goals first
+        | exact h.elim
+        | (rcases h with h | h
+           · first | exact annTuple_justified es p h | exact annEs_justified es p h
+           · exact selfAnn_justified _ p h)
+  | .call i f a k, p, h => by
+      simp only [annE, List.mem_append] at h
+      rcases h with ((h | h) | h) | h
+      · exact annE_justified f p h
+      · exact annEs_justified a p h
+      · exact annKw_justified k p h
+      · exact selfAnn_justified _ p h
+  | .subscript i v s c, p, h => by
+      simp only [annE, List.mem_append] at h
+      rcases h with (h | h) | h
+      · exact annE_justified v p h
+      · exact annE_justified s p h
+      · exact selfAnn_justified _ p h
+  | .compare i l o rs, p, h => by
+      simp only [annE, List.mem_append] at h
+      rcases h with (h | h) | h
+      · exact annE_justified l p h
+      · exact annEs_justified rs p h
+      · exact selfAnn_justified _ p h
+  | .binop i o l r, p, h => by
+      simp only [annE, List.mem_append] at h
+      rcases h with (h | h) | h
+      · exact annE_justified l p h
+      · exact annE_justified r p h
+      · exact selfAnn_justified _ p h
+  | .unary i o e, p, h => by
+      simp only [annE, List.mem_append] at h
+      rcases h with h | h
+      · exact annE_justified e p h
+      · exact selfAnn_justified _ p h
+  | .boolop i b vs, p, h => annEs_justified vs p (by simpa [annE] using h)
+  | .ifexp i a b c, p, h => by
+      simp only [annE, List.mem_append] at h
+      rcases h with (h | h) | h
+      · exact annE_justified a p h
+      · exact annE_justified b p h
+      · exact annE_justified c p h
+  | .keyword i a ha v, p, h => annE_justified v p (by simpa [annE] using h)
+  | .withitem i c vars, p, h => by
+      simp only [annE, List.mem_append] at h
+      rcases h with h | h
+      · exact annE_justified c p h
+      · exact annEs_justified vars p h
+  | .attr .., _, h => by simp [annE] at h
+  | .lambda .., _, h => by simp [annE] at h
+  | .starred .., _, h => by simp [annE] at h
+  | .namedexpr .., _, h => by simp [annE] at h
+  | .comp .., _, h => by simp [annE] at h
+  | .comprehension .., _, h => by simp [annE] at h
+  | .arguments .., _, h => by simp [annE] at h
+  | .arg .., _, h => by simp [annE] at h
+  | .noneMarker, _, h => by simp [annE] at h
+  | .other .., _, h => by simp [annE] at h
+theorem annTuple_justified : ∀ (es : List Expr) (p : Nat × TySet), p ∈ annTuple R env tin es → Justified R env tin p
+  | [], _, h => by simp [annTuple] at h
+  | e :: es, p, h => by
+      simp only [annTuple, List.mem_append] at h
+      rcases h with h | h
+      · exact annE_justified e p h
+      · cases ht : tyE R env tin e with
+        | none => simp [ht] at h
+        | some T => exact annTuple_justified es p (by simpa [ht] using h)
+theorem annEs_justified : ∀ (es : List Expr) (p : Nat × TySet), p ∈ annEs R env tin es → Justified R env tin p
+  | [], _, h => by simp [annEs] at h
+  | e :: es, p, h => by
+      simp only [annEs, List.mem_append] at h
+      rcases h with h | h
+      · exact annE_justified e p h
+      · exact annEs_justified es p h
+theorem annKw_justified : ∀ (es : List Expr) (p : Nat × TySet), p ∈ annKw R env tin es → Justified R env tin p
+  | [], _, h => by simp [annKw] at h
+  | e :: es, p, h => by
+      cases e with
+      | keyword i a ha v =>
+        simp only [annKw, List.mem_append] at h
+        rcases h with h | h
+        · exact annE_justified v p h
+        · exact annKw_justified es p h
+      | _ =>
+        simp only [annKw, List.mem_append] at h
+        rcases h with h | h
+        · exact annE_justified _ p h
+        · exact annKw_justified es p h
+end
 
 end
 
